@@ -202,15 +202,31 @@ class Inst:
         orig_remote = dec.on_distributed_update
         inst = self
 
+        # the events waiting in the decider, mirrored through its public entry points only (how it stores them is its
+        # own business): appended when `on_receiver_update` accepts one, dropped when `update()` has taken one
+        mirror = []
+        orig_recv = dec.on_receiver_update
+
+        def on_receiver_update(event):
+            orig_recv(event)
+            mirror.append(event)
+
         def update():
-            ev = dec._queue.queue[0] if not dec._queue.empty() else None
+            waiting = dec.size()
+            ev = mirror[0] if (waiting > 0 and mirror) else None
             n0 = len(inst.drec.notifs)
             try:
                 ch = orig_update()
             except Exception:
+                if ev is not None and dec.size() < waiting:
+                    mirror.pop(0)
                 if ev is not None:
                     inst.trace.append(('ev ' + ' '.join(pl.show_event(ev).split(':')), 'X'))
                 raise
+            if ev is not None and dec.size() < waiting:
+                mirror.pop(0)
+            else:
+                ev = None
             if ev is not None:
                 new = inst.drec.notifs[n0:]
                 n = new[0] if new else ([], [], [], True)
@@ -233,6 +249,7 @@ class Inst:
             inst.trace.append((op, f"C{pl.show_recs(n[0])} H{pl.show_recs(n[1])} U{pl.show_recs(n[2])} | {inst.table()}"))
 
         dec.update = update
+        dec.on_receiver_update = on_receiver_update
         dec.on_distributed_update = remote
 
     def model_lines(self) -> Tuple[List[str], List[str]]:
